@@ -13,4 +13,5 @@ Extraction "model.ml"
   (* Raft *) Raft.init_default Raft.step Raft.run Raft.election_safety_b Raft.committed_agree_b
              Raft.leader_completeness_b Raft.double_vote_b Raft.stale_vote_b Raft.ack_diverged_b
              Raft.old_term_commit_b Raft.ack_below_vote_b Raft.all_synced_b Raft.drain
-  (* ConcRead *) conc_init conc_step conc_pc conc_lock conc_result file_read.
+  (* ConcRead *) conc_init conc_step conc_pc conc_lock conc_result file_read
+  (* DeriveType *) to_values from_element db_keys select_pairs upsert_pairs.
